@@ -67,6 +67,11 @@ def _body(rng, tk: Tokens, exp: Expect, unit: int, feature, twin, xhtml: bool, t
                     continue
                 t = cellw()
                 inner = " ".join(t)
+                if xhtml and not tables_in_text and rng.random() < 0.3:
+                    # EPUB cells with several block elements written without white space between the tags
+                    t2 = cellw(1, 1)
+                    inner = f"<p>{' '.join(t)}</p><p>{' '.join(t2)}</p>" if rng.random() < 0.5 else f"<div>{' '.join(t)}</div><ul><li>{' '.join(t2)}</li></ul>"
+                    t = t + t2
                 if feat == "cell-two-paragraphs" and i == 0 and j == 0:
                     t2 = cellw(1, 1)
                     inner = f"<p>{' '.join(t)}</p><p>{' '.join(t2)}</p>" if not twin else f"{' '.join(t)} {' '.join(t2)}"
